@@ -76,6 +76,8 @@ pub fn main(args: &Args) -> i32 {
         let zero = libc::rlimit { rlim_cur: 0, rlim_max: 0 };
         libc::setrlimit(libc::RLIMIT_CORE, &zero);
     }
+    let from: usize = args.extra.get("from").and_then(|s| s.parse().ok()).unwrap_or(0);
+    let skip: std::collections::BTreeSet<usize> = args.extra.get("skip").map(|s| s.split(',').filter_map(|x| x.parse().ok()).collect()).unwrap_or_default();
     let touch = codec.touch;
     let needs_kernel = codec.needs_kernel;
     let handle = std::thread::Builder::new().name("decode".into()).stack_size(STACK).spawn(move || {
@@ -87,10 +89,15 @@ pub fn main(args: &Args) -> i32 {
         }
         raw_write(fd, "READY\n");
         alloc::arm_cap(HARD_CAP, fd);
+        let mut pending = String::new();
         for (i, input) in inputs.iter().enumerate() {
-            let line = format!("S {i}\n");
-            raw_write(fd, &line);
-            drop(line);
+            if i < from || skip.contains(&i) {
+                continue;
+            }
+            // one write(2) per input: the previous call's result line + this call's start marker
+            pending.push_str(&format!("S {i}\n"));
+            raw_write(fd, &pending);
+            pending.clear();
             let t0 = Instant::now();
             let base = alloc::window_start();
             let res = touch(input);
@@ -100,8 +107,9 @@ pub fn main(args: &Args) -> i32 {
                 Ok(()) => ("ok", "-".to_owned()),
                 Err(l) => ("err", l.replace(' ', "_")),
             };
-            raw_write(fd, &format!("D {i} {tag} {label} {peak} {us}\n"));
+            pending.push_str(&format!("D {i} {tag} {label} {peak} {us}\n"));
         }
+        raw_write(fd, &pending);
         raw_write(fd, "END\n");
         0
     });
